@@ -62,7 +62,7 @@ PROPS = {
         "assumptions": SIM_ASSUME,
     },
     "C05": {
-        "stages": [sim(20, 420), real(8, 180)],
+        "stages": [sim(20, 420), real(14, 180)],
         "rule": "random DAGs x fault plans (1-3 failing steps: write nothing / all / some outputs then fail; interrupts) x -k in {1,2,3,100} x -j x completion orders (systematic for small cases); online containment and budget monitors, exit status check, and a fault-free follow-up invocation whose started set must equal the reference model's prediction; non-trivial = at least one failure, one step blocked by it and one unblocked step that ran",
         "must_observe": ["events", "followups_checked"],
         "assumptions": SIM_ASSUME,
